@@ -73,6 +73,11 @@ impl Generator {
             return OpcodeKind::None;
         }
 
+        #[cfg(feature = "verif")]
+        if let Some(forced) = crate::verif::forced_choice(&opcodes) {
+            return opcodes[forced];
+        }
+
         // uniform random selection
         let idx = source.choose_index(opcodes.len());
         opcodes[idx]
